@@ -170,17 +170,26 @@ func genC43Overflow(rt *rapid.T, sc *c43Scenario) *c43Scenario {
 	n := rapid.IntRange(3, m+7).Draw(rt, "ovBlocks")
 	ia := rapid.IntRange(0, 1).Draw(rt, "ovFirstHeld")
 	ib := -1
-	if rapid.IntRange(0, 4).Draw(rt, "ovSecondHeld") > 0 && ia+1 < n {
-		// distance to the second held block: around the limit
-		d := rapid.IntRange(1, m+3).Draw(rt, "ovGap")
-		if ia+d < n {
-			ib = ia + d
-		} else {
-			ib = n - 1
+	if rapid.IntRange(0, 4).Draw(rt, "ovSecondHeld") > 0 {
+		// number of blocks between the two held ones: around the limit, most
+		// often exactly limit+1 (then the overflow reports equal the blocks still
+		// unfinished once the first held block and its followers are through)
+		d := m + 2
+		if rapid.IntRange(0, 9).Draw(rt, "ovGapKind") > 5 {
+			d = rapid.IntRange(1, m+4).Draw(rt, "ovGap")
+		}
+		ib = ia + d
+		if n < ib+1 {
+			n = ib + 1 + rapid.IntRange(0, 2).Draw(rt, "ovBehindSecond")
 		}
 	}
 	holdA := time.Duration(rapid.IntRange(12, 40).Draw(rt, "ovHoldAMs")) * time.Millisecond
-	holdB := holdA + time.Duration(rapid.IntRange(-10, 40).Draw(rt, "ovHoldBDeltaMs"))*time.Millisecond
+	var holdB time.Duration
+	if rapid.IntRange(0, 9).Draw(rt, "ovReleaseOrder") <= 6 {
+		holdB = holdA + time.Duration(rapid.IntRange(15, 45).Draw(rt, "ovHoldBAfterMs"))*time.Millisecond
+	} else { // released about together with, or before, the first held block
+		holdB = holdA + time.Duration(rapid.IntRange(-10, 10).Draw(rt, "ovHoldBDeltaMs"))*time.Millisecond
+	}
 	var rd c43Round
 	for i := 0; i < n; i++ {
 		pl := &itemPlan{ID: i + 1, CtxKind: ctxPatient}
@@ -203,7 +212,16 @@ func genC43Overflow(rt *rapid.T, sc *c43Scenario) *c43Scenario {
 		}
 		rd.Pre = append(rd.Pre, pl)
 	}
-	rd.Pause = time.Duration(rapid.IntRange(0, 60).Draw(rt, "ovPauseMs")) * time.Millisecond
+	// the wait begins while the first block is still held (mostly), between the
+	// two releases, or after both
+	switch k := rapid.IntRange(0, 9).Draw(rt, "ovWaitAt"); {
+	case k <= 5:
+		rd.Pause = time.Duration(rapid.IntRange(0, int(holdA/time.Millisecond)).Draw(rt, "ovPauseMs")) * time.Millisecond
+	case k <= 8:
+		rd.Pause = holdA + time.Duration(rapid.IntRange(0, 20).Draw(rt, "ovPauseMs"))*time.Millisecond
+	default:
+		rd.Pause = holdA + time.Duration(rapid.IntRange(30, 70).Draw(rt, "ovPauseMs"))*time.Millisecond
+	}
 	sc.Rounds = []c43Round{rd}
 	sc.Overflow = fmt.Sprintf("max_pending=%d, block #%d held %v and block #%d held %v in the %s stage, %d blocks", m, ia+1, holdA, ib+1, holdB, stageNames[stage], n)
 	// optionally a second round on the same pipeline (the counter must still be right)
@@ -395,7 +413,7 @@ func (sc *c43Scenario) caseObj(w *world, drains []c43Drain) map[string]any {
 
 func TestC43(t *testing.T) {
 	rec := evi.New(t, "C43", evi.Exploration,
-		"one case = pipeline config (1..16 workers per stage, validation on/off, buffer 1..64) + 1..3 rounds of [1..6 blocks submitted, optional pause, WaitForDrain; optionally 1..3 more blocks submitted by another goroutine during the wait]; every block gets generated hold times (0, 0.1..5 ms, or 8..45 ms = longer than the 10 ms poll) inside its decode worker, validate worker and ApplyFunc; ~35% of the cases hold one block 450 ms in one place with 1..2 workers per stage and start the wait 200 ms late; non-trivial = a WaitForDrain returned nil in a round where a block submitted before the call was inside a worker or ApplyFunc while the wait was in progress; distinct by config+rounds")
+		"one case = pipeline config (1..16 workers per stage, validation on/off, buffer 1..64) + 1..3 rounds of [1..6 blocks submitted, optional pause, WaitForDrain; optionally 1..3 more blocks submitted by another goroutine during the wait]; every block gets generated hold times (0, 0.1..5 ms, or 8..45 ms = longer than the 10 ms poll) inside its decode worker, validate worker and ApplyFunc; max-pending limit drawn from {default,1,2,3,5}; 1 in 4 direct cases is an overflow shape (limit 1..5, >= 3 workers per stage, one or two early blocks held 12..85 ms inside a decode/validate worker while limit-1..limit+7 later blocks overtake them, released in generated order, the wait begins before / between / after the releases); ~25% of the cases hold one block 450 ms in one place with 1..2 workers per stage and start the wait 200 ms late; non-trivial = a WaitForDrain returned nil in a round where a block submitted before the call was inside a worker or ApplyFunc while the wait was in progress; distinct by config+rounds")
 	defer rec.Finish()
 	rec.Assume(
 		"a block counts as submitted before the wait iff its Submit returned before WaitForDrain was called (logical clock); the return instant is read right after WaitForDrain returns",
@@ -406,12 +424,12 @@ func TestC43(t *testing.T) {
 	drainTimeouts := new(int)
 	defer func() {
 		if *drainTimeouts > 0 && !t.Failed() {
-			t.Errorf("harness: %d WaitForDrain call(s) did not return nil within 3 s + 20x the injected latency although the pipeline finished every block; no C43 claim can be made for them", *drainTimeouts)
+			t.Errorf("harness: %d WaitForDrain call(s) did not return nil within 2 s + 20x the injected latency although the pipeline finished every block; no C43 claim can be made for them", *drainTimeouts)
 		}
 	}()
 	rec.Check(func(rt *rapid.T) {
 		if rapid.IntRange(0, 5).Draw(rt, "mode") == 5 {
-			c43ClientCase(rec, rt)
+			c43ClientCase(rec, rt, drainTimeouts)
 			return
 		}
 		sc := genC43(rt)
@@ -426,7 +444,13 @@ func TestC43(t *testing.T) {
 		for _, p := range all {
 			planned += p.Delay[0] + p.Delay[1] + p.ApplyDelay + p.Pause
 		}
-		drainBound := 3*time.Second + 20*planned
+		// Not an oracle: a wait that does not succeed within the bound only means
+		// "no claim". Generous first; once three waits have failed the run can at
+		// best end inconclusive (unless a violation is found), so stop paying.
+		drainBound := 2*time.Second + 20*planned
+		if *drainTimeouts >= 3 {
+			drainBound = 500*time.Millisecond + 3*planned
+		}
 		for _, rd := range sc.Rounds {
 			if len(drains) > 0 && drains[len(drains)-1].err != nil {
 				break // the previous wait never succeeded: no further claims in this case
@@ -533,11 +557,19 @@ func TestC43(t *testing.T) {
 
 // c43ClientCase: the same oracle, observed through the chain-sync client's
 // RollBackward handling (see c43_client_test.go).
-func c43ClientCase(rec *evi.Recorder, rt *rapid.T) {
+func c43ClientCase(rec *evi.Recorder, rt *rapid.T, drainTimeouts *int) {
 	sc := genC43Client(rt)
-	o := runC43Client(sc)
+	patience := 10 * time.Second
+	if *drainTimeouts >= 3 {
+		patience = 2 * time.Second // the run can at best end inconclusive: stop paying
+	}
+	o := runC43Client(sc, patience)
 	if o.err != "" {
 		rt.Fatalf("harness (chain-sync client mode): %s", o.err)
+	}
+	if o.stuck {
+		rec.Class("chainsync_client_stuck_in_drain(no claim)")
+		*drainTimeouts++
 	}
 	fs, rollbacks, heldDuring := judgeC43Client(sc, o)
 	rec.EvalN(rollbacks)
